@@ -251,6 +251,19 @@ var c02Literals = []string{
 	`{"type":"application/vnd.lime.delegation+json","content":{"Target":"a@b/c","EnvelopeTypes":["message"],"Messages":[{"type":"text/plain"}],"Commands":[{"method":"get","uri":"/x","status":"success"}]}}`,
 }
 
+// genStructuredText: strings assembled from the separators and escapes of the text forms the decoder parses (URIs, nodes,
+// media types, enums), so that a replaced value is likely to reach the branches of those parsers.
+var genStructuredText = rapid.Custom(func(t *rapid.T) string {
+	pieces := []string{"/", "//", "%2F", "%2f", "%7B", "{", "}", "%", "%zz", "lime://", "http://", ":", "@", "?", "#", "&", "=", "+", ";", " ", ".", "..",
+		"a", "b", "ping", "x.y", "[", "]", "[::1]", ":80", "text", "plain", "application", "json", "vnd.lime.", "*", "é", "\\"}
+	n := rapid.IntRange(1, 7).Draw(t, "n")
+	out := ""
+	for i := 0; i < n; i++ {
+		out += rapid.SampledFrom(pieces).Draw(t, "piece")
+	}
+	return out
+})
+
 // hostile constants: null / wrong types at every document slot, degenerate media types, empty enums, mismatched schemes
 var c02Hostile = []string{
 	`{"type":"application/vnd.lime.container+json","content":{"type":"text/plain"}}`,
@@ -499,7 +512,7 @@ func genBytesCase(rt *rapid.T, corpus [][]byte) ([]byte, string) {
 		subs := tr.subtrees()
 		idx := rapid.IntRange(0, len(subs)-1).Draw(rt, "node")
 		if subs[idx].kind == 'v' {
-			q, _ := json.Marshal(GenString().Draw(rt, "str"))
+			q, _ := json.Marshal(rapid.OneOf(GenString(), genStructuredText).Draw(rt, "str"))
 			c := tr.clone()
 			_, _, x := c.locate(idx)
 			x.val = string(q)
